@@ -91,7 +91,22 @@ class ModelEval:
             return False
         if z3.is_string_value(v):
             return core._zstr_to_py(v)
-        raise HarnessError('cannot evaluate %s under the model (got %s)' % (e, v))
+        # the simplifier could not reduce it to a value: let a solver evaluate the closed term
+        sol = z3.Solver()
+        sol.set('timeout', 5000)
+        x = z3.Const('__eval', v.sort())
+        sol.add(x == v)
+        if str(sol.check()) == 'sat':
+            w = sol.model().eval(x, model_completion=True)
+            if z3.is_int_value(w):
+                return w.as_long()
+            if z3.is_true(w):
+                return True
+            if z3.is_false(w):
+                return False
+            if z3.is_string_value(w):
+                return core._zstr_to_py(w)
+        raise HarnessError('cannot evaluate %s under the model (got %s)' % (str(e)[:200], str(v)[:200]))
 
 
 def _consts(e):
@@ -233,6 +248,8 @@ class Ctx:
             if exclude:
                 self.eng.add(z3.InRe(v.e, z3.Star(_char_class_excluding(exclude))))
                 self.eng.char_free[v.e.decl().name()] = set(exclude)
+            if alphabet is not None and maxlen is not None:
+                self.eng.str_meta[v.e.decl().name()] = (maxlen, alphabet)
             if alphabet is not None:
                 self.eng.add(z3.InRe(v.e, z3.Star(z3.Union(*[z3.Re(c) for c in alphabet])
                                                    if len(alphabet) > 1 else z3.Re(alphabet))))
